@@ -354,6 +354,28 @@ CLAIMS = {
         'technique': 'CFG guard-dominance + registry/release table + finite '
                      'abstract evaluation (decision tables) (ast)',
     },
+    'C12': {
+        'text': 'Decides the error-discipline and positioning structure of '
+                'SFTP transfers: the result-collection step of '
+                '_SFTPParallelIO.iter is evaluated as a complete table over '
+                'one or two completed block tasks with outcomes {full, short, '
+                'EOF, OSError, SFTPError} in both orders (fields the rule '
+                'does not know are universally quantified): any failed block '
+                'fails the transfer with the first error after cancelling '
+                'the rest, only EOF ends it quietly, data is yielded with '
+                'its request offset, a short read continues at offset+count; '
+                'the copier raises iff copied ≠ announced ∧ ¬sparse and the '
+                'test lies on every normal exit of the block copy; '
+                'reassembly / parallel-write positions are linear in the '
+                'request offset (offset − start); the client file position '
+                'advances by the number of bytes transferred (encoded '
+                'length); both files are closed in a finally.',
+        'note': TB + 'not decided: byte equality, arithmetic beyond the '
+                'linear identities, sparse layouts.',
+        'technique': 'finite abstract evaluation (decision table, '
+                     'universally quantified unknown fields) + linear-form '
+                     'comparison + must-pass-through (ast)',
+    },
 }
 
 PENDING = 'check not built yet in this session (planned, see DESIGN.md section 5)'
